@@ -1,0 +1,142 @@
+// SPDX-FileCopyrightText: 2026 The Pion community <https://pion.ly>
+// SPDX-License-Identifier: MIT
+
+//go:build verif && !js
+
+package webrtc
+
+import (
+	"errors"
+	"net"
+	"time"
+
+	"github.com/pion/sdp/v3"
+	"github.com/pion/srtp/v3"
+)
+
+// Verification hook for the undeclared-SSRC path (C30): handleIncomingSSRC is driven directly, on the
+// calling goroutine, with a parsed remote description and one RTP packet, so that the work the
+// undeclared-RTP background goroutine does for a connected peer can be observed (and a panic in it
+// recovered by the caller) without establishing a connection.
+
+// VerifIncomingOracle is what the MediaEngine answers after it was updated from the description:
+// inputs of handleIncomingSSRC that do not come from this file's subject.
+type VerifIncomingOracle struct {
+	MidOK, RidOK         bool // sdes:mid / sdes:rtp-stream-id negotiated for audio or video
+	AudioCodecs, VideoOK bool // AddTransceiverFromKind(kind, sendrecv) finds codecs
+	KnownPT              bool // getRTPParametersByPayloadType(pt) succeeds
+}
+
+func verifInstallRemote(pc *PeerConnection, typ SDPType, s *sdp.SessionDescription) {
+	_ = pc.api.mediaEngine.updateFromRemoteDescription(*s)
+	pc.mu.Lock()
+	pc.currentRemoteDescription = &SessionDescription{Type: typ, parsed: s}
+	pc.mu.Unlock()
+}
+
+// VerifIncomingSSRCOracle installs the description as the connection's remote description (MediaEngine
+// update included, errors ignored) and reports the MediaEngine's answers for the given payload type.
+func VerifIncomingSSRCOracle(pc *PeerConnection, typ SDPType, s *sdp.SessionDescription, pt PayloadType) VerifIncomingOracle {
+	verifInstallRemote(pc, typ, s)
+	out := VerifIncomingOracle{}
+	_, a, v := pc.api.mediaEngine.getHeaderExtensionID(RTPHeaderExtensionCapability{sdp.SDESMidURI})
+	out.MidOK = a || v
+	_, a, v = pc.api.mediaEngine.getHeaderExtensionID(RTPHeaderExtensionCapability{sdp.SDESRTPStreamIDURI})
+	out.RidOK = a || v
+	out.AudioCodecs = len(pc.api.mediaEngine.getCodecsByKind(RTPCodecTypeAudio)) > 0
+	out.VideoOK = len(pc.api.mediaEngine.getCodecsByKind(RTPCodecTypeVideo)) > 0
+	_, err := pc.api.mediaEngine.getRTPParametersByPayloadType(pt)
+	out.KnownPT = err == nil
+
+	return out
+}
+
+func verifSRTPPair() (*srtp.SessionSRTP, *srtp.SessionSRTP, func(), error) {
+	ca, cb := net.Pipe()
+	key := []byte{1, 2, 3, 4, 5, 6, 7, 8, 9, 10, 11, 12, 13, 14, 15, 16}
+	salt := []byte{1, 2, 3, 4, 5, 6, 7, 8, 9, 10, 11, 12, 13, 14}
+	cfg := func() *srtp.Config {
+		return &srtp.Config{
+			Profile: srtp.ProtectionProfileAes128CmHmacSha1_80,
+			Keys: srtp.SessionKeys{
+				LocalMasterKey: key, LocalMasterSalt: salt, RemoteMasterKey: key, RemoteMasterSalt: salt,
+			},
+		}
+	}
+	sa, err := srtp.NewSessionSRTP(ca, cfg())
+	if err != nil {
+		return nil, nil, nil, err
+	}
+	sb, err := srtp.NewSessionSRTP(cb, cfg())
+	if err != nil {
+		_ = sa.Close()
+
+		return nil, nil, nil, err
+	}
+
+	return sa, sb, func() { _ = sa.Close(); _ = sb.Close(); _ = ca.Close(); _ = cb.Close() }, nil
+}
+
+// VerifHandleIncomingSSRC installs the description as the connection's remote description and runs
+// handleIncomingSSRC for the SSRC of pkt (a raw RTP packet, delivered through a real SRTP session pair
+// over a pipe; an empty or unprotectable pkt leaves the stream empty, so Peek fails). It returns a class:
+//
+//	nil                  handleIncomingSSRC returned nil (declared SSRC, or the track was handled)
+//	ssrc-err             errMediaSectionHasExplictSSRCAttribute
+//	err-add              AddTransceiverFromKind failed
+//	err-peek             nothing to peek / too short
+//	err-codec            unknown payload type
+//	err-early            errPeerConnEarlyMediaWithoutAnswer
+//	err-mid-required     errPeerConnSimulcastMidRTPExtensionRequired
+//	err-rid-required     errPeerConnSimulcastStreamIDRTPExtensionRequired
+//	beyond               any later error (the DTLS transport of the bare connection is not started)
+func VerifHandleIncomingSSRC(pc *PeerConnection, typ SDPType, s *sdp.SessionDescription, ssrc SSRC, pkt []byte) string {
+	verifInstallRemote(pc, typ, s)
+	sa, sb, closeAll, err := verifSRTPPair()
+	if err != nil {
+		return "hook-error"
+	}
+	defer closeAll()
+	stream, err := sb.OpenReadStream(uint32(ssrc))
+	if err != nil {
+		return "hook-error"
+	}
+	delivered := false
+	if len(pkt) >= 12 {
+		if ws, werr := sa.OpenWriteStream(); werr == nil {
+			if _, werr = ws.Write(pkt); werr == nil {
+				delivered = true
+			}
+		}
+	}
+	// Peek inside handleIncomingSSRC blocks until the packet has gone through the pipe and the receiving
+	// session (Peek consumes from the stream's buffer, so it must not be called here)
+	if delivered {
+		_ = stream.SetReadDeadline(time.Now().Add(10 * time.Second))
+	} else {
+		_ = stream.SetReadDeadline(time.Now().Add(30 * time.Millisecond))
+	}
+	err = pc.handleIncomingSSRC(stream, ssrc)
+	switch {
+	case err == nil:
+		return "nil"
+	case errors.Is(err, errMediaSectionHasExplictSSRCAttribute):
+		return "ssrc-err"
+	case errors.Is(err, errPeerConnRemoteSSRCAddTransceiver):
+		return "err-add"
+	case errors.Is(err, errRTPTooShort):
+		return "err-peek"
+	case errors.Is(err, ErrCodecNotFound):
+		return "err-codec"
+	case errors.Is(err, errPeerConnEarlyMediaWithoutAnswer):
+		return "err-early"
+	case errors.Is(err, errPeerConnSimulcastMidRTPExtensionRequired):
+		return "err-mid-required"
+	case errors.Is(err, errPeerConnSimulcastStreamIDRTPExtensionRequired):
+		return "err-rid-required"
+	case !delivered:
+		return "err-peek"
+	}
+
+	return "beyond"
+}
